@@ -67,6 +67,9 @@ def gen(prop, stream, tier, avoid):
         kind = focus or rng.weighted([("curve", 4), ("surface", 4), ("volume", 1.2)])
         spec = shapes.gen_shape(rng, kind=kind, max_size=6, max_degree=3, dim=3 if rng.chance(0.8) else None)
         spec["delta"] = rng.pick([0.5, 0.25, 0.2])
+        if kind != "curve" and rng.chance(0.5):
+            # a different sampling density per direction (equal densities mask direction mix-ups)
+            spec["deltas"] = [rng.pick([0.5, 0.25, 0.2, 0.125]) for _ in range(shapes.DIRS[kind])]
         objs.append(spec)
     ncont = kn.pick([0, 0, 1, 1, 2]) if "container" not in avoid else 0
     conts = []
@@ -248,7 +251,7 @@ class World:
         for spec in script["objects"]:
             o = shapes.build(spec)
             nd = shapes.DIRS[spec["kind"]]
-            o.delta = spec["delta"] if nd == 1 else tuple([spec["delta"]] * nd)
+            o.delta = spec["delta"] if nd == 1 else tuple(spec.get("deltas") or [spec["delta"]] * nd)
             self.objs.append(Live(o, spec["kind"], spec["rational"], spec["dim"]))
         g = shapes.G
         self.conts = []
